@@ -293,11 +293,11 @@ def unit_kinematics(unroll):
     ctx.assume(
       "contracts of normalize, mul_quat, axis_angle_to_quat (units contract/*)",
       "xquat of a parent that this thread did not write is unit (world body: identity set by make_data; otherwise the previous element of the branch)",
-      "body_quat, mocap_quat read by the thread are non-zero; jnt_axis of a hinge is unit (MuJoCo's compiler normalises them)",
+      "body_quat and jnt_axis read by the thread are unit (MuJoCo's compiler normalises them); qpos and mocap_quat arbitrary",
       "model fields are not batched per world (first dimension 1; world indexing is C09); array contents outside the thread's in-range accesses arbitrary",
       "float products / quotients that do not enter a norm are uninterpreted (positions; irrelevant to the norm of xquat)",
     )
-    it = Q.CInterp(summaries=Q.summaries("mul_quat", "axis_angle_to_quat", "rot_vec_quat"), norm="uf", float_uf=True)
+    it = Q.CInterp(unroll=unroll, summaries=Q.summaries("mul_quat", "axis_angle_to_quat", "rot_vec_quat"), norm="uf", float_uf=True)
     unb = {lab: [1, None] for lab in ("qpos0", "body_pos", "body_quat", "jnt_pos", "jnt_axis")}
     kt = lib.kernel_thread(k, shapes=unb, unroll=unroll, cap=12, assume_bounds=False, interp_kw={"interp": it})
     N = Q.nsq_uf
@@ -308,13 +308,22 @@ def unit_kinematics(unroll):
       if a.kind != "R":
         continue
       nm = a.cell.name
-      if nm in ("body_quat", "mocap_quat_in"):
-        pre.append(Implies(a.guard, N(a.val) != 0))
+      if nm == "body_quat":
+        pre.append(Implies(a.guard, N(a.val) == 1))
       elif nm == "jnt_axis":
         pre.append(Implies(a.guard, N(a.val) == 1))
       elif a.cell is xq:
         pre.append(N(xq.getv(a.idx, snap=xq.a0)) == 1)
     sess = ctx.session(kt.bg + [core.zbool(p) for p in pre])
+    # second session with the thread's own in-bounds conditions: only used to get a replayable model when `sess` says sat
+    seen, bnds = set(), []
+    for o in kt.it.obl:
+      if o.kind == "bounds":
+        c = core.zbool(Implies(o.guard, o.strict))
+        if c.sexpr() not in seen:
+          seen.add(c.sexpr())
+          bnds.append(c)
+    full = ctx.session(kt.bg + [core.zbool(p) for p in pre] + bnds, timeout_ms=max(ctx.timeout_ms, 60000))
     writes = [a for a in kt.it.accesses if a.kind == "W" and a.cell is xq]
     if len(writes) < 2 * unroll:
       ctx.error(f"_kinematics_branch: only {len(writes)} xquat stores found (expected 2 per unrolled body)")
@@ -323,7 +332,8 @@ def unit_kinematics(unroll):
     for n, a in enumerate(writes):
       ctx.reach(sess, f"twin:write{n}@{a.where}", a.guard)
       rp = lib.make_replay(ctx, kt, loc, f"xquat{n}", "goal", goal="checks.c23:goal_xquat_unit", env={"bodies": [a.idx[1]]})
-      ctx.prove(sess, f"xquat-unit/write{n}@{a.where.split(':')[-1]}", N(a.val) == 1, a.guard, names={"w": w, "branch": br, "body": a.idx[1]}, replay=rp, desc="_kinematics_branch writes an xquat that is not a unit quaternion")
+      fast = sess.prove("probe", N(a.val) == 1, a.guard)
+      ctx.prove(sess if fast.status == "unsat" else full, f"xquat-unit/write{n}@{a.where.split(':')[-1]}", N(a.val) == 1, a.guard, names={"w": w, "branch": br, "body": a.idx[1]}, replay=rp, desc="_kinematics_branch writes an xquat that is not a unit quaternion")
 
   return (f"kinematics/branch-unroll{unroll}", run)
 
